@@ -10,7 +10,7 @@ use pdatastructs::filters::Filter;
 use serde_json::json;
 use std::sync::Mutex;
 
-pub const RULE: &str = "(a) usability over the (n,p) plane n in {1,2,3,10,50,1e3,1e5} x p in {1e-9,1e-6,1e-3,0.02,0.1,0.3,0.5,0.51,0.75,0.9,0.999} for BloomFilter::with_properties and CuckooFilter::with_properties_4/_8 (default and harness hashers): k>=1, m>=1, n distinct inserts (cuckoo: no Full), query/len/is_empty/union/clear do not panic - also with debug assertions on; (b) false-positive frequencies over independent Mix/SipHash seeds and disjoint probe sets with the upper-bounded-rate rule (violated iff mean - 5*SE > bound in two independent stages): Bloom <= 1.3p for n >= 50, cuckoo <= p, quotient filter holding m elements <= m*2^-(q+r); (c) Bloom len() within max(5*sigma_est+2, 0.05n) of the number of distinct inserts while at most half the bits are set. non-trivial = (cell, seed) execution with >= 1 probe answered; distinct = (cell, seed) pairs + usability configurations";
+pub const RULE: &str = "(a) usability over the (n,p) plane n in {1,2,3,10,50,1e3,1e5} x p in {1e-9,1e-6,1e-3,0.02,0.1,0.3,0.5,0.51,0.75,0.9,0.999} for BloomFilter::with_properties and CuckooFilter::with_properties_4/_8 (default and harness hashers): k>=1, m>=1, n distinct inserts (cuckoo: no Full), query/len/is_empty/union/clear do not panic - also with debug assertions on; (b) false-positive frequencies over independent Mix/SipHash seeds and disjoint probe sets with the upper-bounded-rate rule (violated iff mean - 5*SE > bound in two independent stages): Bloom <= 1.3p for n >= 50, cuckoo <= p (incl. p = 1e-9..1e-12, fingerprints of 31..44 bits), quotient filter holding m elements <= m*2^-(q+r) (incl. q+r = 50..64); (c) Bloom len() within max(5*sigma_est+2, 0.05n) of the number of distinct inserts while at most half the bits are set. non-trivial = (cell, seed) execution with >= 1 probe answered; distinct = (cell, seed) pairs + usability configurations";
 pub const ASSUMPTIONS: &[&str] = &[
     "cuckoo usability is scoped to p >= 2*bucketsize*2^-64, below which no 64-bit fingerprint can exist",
     "probe keys are disjoint from inserted keys by construction (different key ranges before hashing)",
@@ -206,7 +206,7 @@ fn one_seed(cell: &Cell, mode: HMode, seed: u64, probes: usize) -> SeedResult {
         }
         Cell::Qf { q, r, fill } => {
             let mut f: QuotientFilter<u64, CtlBuildHasher> = QuotientFilter::with_params_and_hash(*q, *r, bh);
-            let target = ((1usize << q) as f64 * fill) as usize;
+            let target = (((1usize << q) as f64 * fill) as usize).min(4096);
             let mut i = 0u64;
             while f.len() < target && i < 4 * (1u64 << q) {
                 let _ = f.insert(&key(i));
@@ -286,7 +286,13 @@ fn rates(ctx: &Ctx, rep: &mut Report) {
             }
         }
     }
-    for &(q, r) in &[(4usize, 4usize), (6, 2), (6, 4), (8, 4), (8, 8), (10, 6), (12, 3)] {
+    // very small targets: fingerprints of 31..44 bits; no false positive is expected in any run
+    for &bsz in &[4usize, 8] {
+        for &(n, p) in &[(1000usize, 1e-9), (1000, 1e-12), (20_000, 7e-9), (20_000, 1e-10)] {
+            cells.push(Cell::Cuckoo { bsz, n, p });
+        }
+    }
+    for &(q, r) in &[(4usize, 4usize), (6, 2), (6, 4), (8, 4), (8, 8), (10, 6), (12, 3), (8, 56), (16, 48), (3, 61), (10, 40)] {
         for &fill in &[0.25, 0.5, 1.0] {
             cells.push(Cell::Qf { q, r, fill });
         }
@@ -314,7 +320,8 @@ fn rates(ctx: &Ctx, rep: &mut Report) {
                 Cell::Qf { q, r, fill } => ((1usize << q) as f64 * fill * 2f64.powi(-((q + r) as i32))).min(1.0),
             };
             let target = if bound_guess < 1e-5 { 150.0 } else { 400.0 };
-            let probes = ((target / (bound_guess * seeds as f64)).ceil() as usize).clamp(2000, 2_000_000);
+            // bounds below 1e-8 cannot be resolved; such cells only detect gross excess (any false positive)
+            let probes = if bound_guess < 1e-8 { 20_000 } else { ((target / (bound_guess * seeds as f64)).ceil() as usize).clamp(2000, 2_000_000) };
             let seeds = match cell {
                 Cell::Bloom { n, .. } | Cell::Cuckoo { n, .. } if *n >= 20_000 => (seeds / 4).max(32),
                 _ => seeds,
